@@ -1,14 +1,18 @@
 import LunaVerif.Core.Proto
 import LunaVerif.Model.Usb2.IsoStreamOut
+import LunaVerif.Lemmas.C16Host
 open LunaVerif LunaVerif.Proto LunaVerif.IsoStreamOut
 
 /-- config line: `# endpoint_number max_packet_size buffer_size`; input line: `rx_valid rx_next rx_payload
-rx_complete rx_invalid tok_endpoint tok_is_out ready`; output line: `valid data first last`. -/
+rx_complete rx_invalid tok_endpoint tok_is_out ready`; output line: `valid data first last legal`, where
+`legal` = the history up to and including this cycle is accepted by the acceptor of `LegalRx` (`IPhase.step`
+of `Lemmas/C16Host.lean`, the hypothesis of `iso_out_whole_packets_only`). -/
 def main : IO Unit :=
-  runDriver (σ := Config × State)
-    (fun cfg => (⟨fld cfg 0, fld cfg 1, fld cfg 2⟩, init))
-    (fun (c, s) i =>
+  runDriver (σ := Config × State × Option IPhase)
+    (fun cfg => (⟨fld cfg 0, fld cfg 1, fld cfg 2⟩, init, some IPhase.idle))
+    (fun (c, s, ph) i =>
       let inp : In := ⟨⟨n2b (fld i 0), n2b (fld i 1), fld i 2, n2b (fld i 3), n2b (fld i 4)⟩,
                        fld i 5, n2b (fld i 6), n2b (fld i 7)⟩
       let (s', o) := step c s inp
-      ((c, s'), [b2n o.valid, o.data, b2n o.first, b2n o.last]))
+      let ph' := ph.bind (fun p => p.step c inp)
+      ((c, s', ph'), [b2n o.valid, o.data, b2n o.first, b2n o.last, b2n ph'.isSome]))
